@@ -77,9 +77,9 @@ func checkHdrBlockAt(w *core.Worker, m0 *gen.MsgSpec, hcap int, withPV bool, cut
 				continue
 			}
 			if withPV {
-				n, e = sipsp.ParseHeaders(buf[:c], offs, &hl, &pv)
+				n, e = sipsp.ParseHeaders(isoCopy(buf[:c]), offs, &hl, &pv)
 			} else {
-				n, e = sipsp.ParseHeaders(buf[:c], offs, &hl, nil)
+				n, e = sipsp.ParseHeaders(isoCopy(buf[:c]), offs, &hl, nil)
 			}
 			if e != sipsp.ErrHdrMoreBytes {
 				break
@@ -439,10 +439,10 @@ func structuralCheck(m *sipsp.PSIPMsg, buf []byte, start, n int, flags uint8) (c
 	if fend(m.Body) != n {
 		return bad("body-end", fmt.Sprintf("Body %v does not end at the returned offset %d", m.Body, n))
 	}
-	if len(m.RawMsg) != n-start || (n > start && &m.RawMsg[0] != &buf[start]) {
+	if !bytes.Equal(m.RawMsg, buf[start:n]) {
 		return bad("raw-message", fmt.Sprintf("RawMsg (len %d) is not buf[%d:%d]", len(m.RawMsg), start, n))
 	}
-	if len(m.Buf) != n || (n > 0 && &m.Buf[0] != &buf[0]) {
+	if !bytes.Equal(m.Buf, buf[:n]) {
 		return bad("buf", fmt.Sprintf("Buf (len %d) is not buf[:%d]", len(m.Buf), n))
 	}
 	return "", "", ""
